@@ -32,6 +32,7 @@ type c10Case struct {
 	WithData bool             `json:"with_data"`
 	Second   bool             `json:"second_failing_element"`
 	MaxBatch int              `json:"max_batch,omitempty"` // downstream batches split into chunks of this size (0: default 3000)
+	LeadName string           `json:"lead_operation_name,omitempty"` // mode invalid: the mutant is the second entry of an HTTP batch whose first entry is a gateway-only operation of this name
 }
 
 func (c10) ID() string            { return "C10" }
@@ -266,6 +267,12 @@ func (p c10) Gen(c *run.Ctx, idx int) (json.RawMessage, error) {
 				continue
 			}
 			cs.Op, cs.Mutator = *mo, k
+			if r.Intn(3) == 0 {
+				cs.LeadName = pick(r, []string{"AmbA", "AmbB", "Lead", "Op", "Q1", "Main", "getIt"})
+			}
+			if k == "ambiguous-operation" && r.Intn(2) == 0 {
+				cs.LeadName = pick(r, []string{"AmbA", "AmbB"}) // the name of one of the mutant's own operations
+			}
 			return mustJSON(cs), nil
 		}
 		return nil, nil
@@ -320,10 +327,30 @@ func (p c10) Exec(c *run.Ctx, idx int, raw json.RawMessage) []run.Result {
 		res.NonTrivial = true
 		res.Counters["mutator:"+sp.Mutator] = 1
 		mark := r.Log.Len()
-		hr := r.Query(&sp.Op)
+		var hr *rig.HTTPResult
+		if sp.LeadName != "" {
+			// entry 0 is answered by the gateway alone and carries operationName and variables; nothing of it may rub off on entry 1
+			lead, _ := json.Marshal(map[string]any{"query": "query " + sp.LeadName + " { __typename }", "operationName": sp.LeadName, "variables": map[string]any{"v1": 1, "v2": "x"}})
+			body := append(append(append([]byte("["), lead...), ','), append(rig.Body(&sp.Op), ']')...)
+			hr = r.Do("application/json", body)
+			res.Tags = append(res.Tags, "second-in-batch")
+		} else {
+			hr = r.Query(&sp.Op)
+		}
 		evs := r.Log.Since(mark)
 		if hr.Panic != nil {
 			return fail("handler-panic: "+errTemplate(fmt.Sprint(hr.Panic)), fmt.Sprint(hr.Panic)+"\n"+hr.Stack)
+		}
+		if sp.LeadName != "" && len(evs) == 0 {
+			if els, berr := rig.DecodeBatch(hr.Body); berr == nil && len(els) == 2 {
+				b, _ := json.Marshal(map[string]any{"data": els[1].Data, "errors": els[1].Errors})
+				if els[1].Data == nil {
+					b, _ = json.Marshal(map[string]any{"data": nil, "errors": els[1].Errors})
+				}
+				hr.Body = b
+			} else {
+				return fail("malformed-response", fmt.Sprintf("batch of 2: %v %s", berr, head(string(hr.Body), 300)))
+			}
 		}
 		if len(evs) > 0 {
 			return fail("invalid-operation-reached-a-service", fmt.Sprintf("mutator %s: %d downstream request(s), first to %s: %s\noperation: %s (operationName %q)", sp.Mutator, len(evs), evs[0].Service, strings.Join(strings.Fields(evs[0].Query), " "), sp.Op.Query, sp.Op.OperationName))
